@@ -1530,3 +1530,91 @@ class sp_set_subscripts(Contract):
         yield "every-assigned-non-zero-value-is-stored", T.ForAll(
             [j], z3.Implies(z3.And(0 <= j, T.tz(j < p), T.tz(V.fn(j, 0)) != 0),
                             z3.And(0 <= tpos(j), T.tz(tpos(j) < n2), rf2(tpos(j)) == kf(j), v2(tpos(j)) == T.tz(V.fn(j, 0)))), [kf(j)])
+
+
+@register
+class sp_getitem(Contract):
+    qual = Q + "__getitem__"
+    props = ("C04", "C19")
+    doc = (
+        "S[K] for a p x N matrix K of subscripts: one value per row, Den(S) at that subscript (a bare number when p = 1); "
+        "S[idx] for a vector of linear indices (negative indices count from the end): one value per index, Den(S) at "
+        "UNRAVEL_F(shape, idx) -- first subscript fastest; subscripts / indices outside the tensor are rejected.  (Region "
+        "keys -- tuples of integers, slices and lists -- are outside the executor: bounded stand-in c04.histories.)"
+    )
+    inline = ("pyttb.pyttb_utils.tt_subsubsref", Q + "ndims")
+
+    def case_names(self):
+        return ["subscripts", "linear-array"]
+
+    def setup(self, S, case):
+        A = sym_sptensor(S, "A")
+        g = A.ghost
+        p = S.int("p", 1)
+        if case == "subscripts":
+            return dict(__self__=A, item=S.row_matrix("K", p, g["N"]), __case__=case)
+        return dict(__self__=A, item=S.vector("idx", p, "int"), __case__=case)
+
+    def raises_when(self, S, a):
+        A, item = a["__self__"], a["item"]
+        g = A.ghost
+        p = item.shape[0]
+        k, m = z3.Int("gi!k"), z3.Int("gi!m")
+        if a["__case__"] == "subscripts":
+            shp = A.fields["shape"]
+            yield "subscript-outside-the-tensor", T.Exists(
+                [k, m], z3.And(0 <= k, T.tz(k < p), 0 <= m, m < g["N"], z3.Or(T.tz(item.fn(k, m)) < 0, T.tz(item.fn(k, m)) >= T.tz(shp.fn(m)))))
+        else:
+            P = N.PRODR(g["srow"])
+            yield "index-outside-the-tensor", T.Exists([k], z3.And(0 <= k, T.tz(k < p), z3.Or(T.tz(item.fn(k)) < -P, T.tz(item.fn(k)) >= P)))
+
+    def ensures(self, S, a, ret):
+        A, item = a["__self__"], a["item"]
+        g = A.ghost
+        p = item.shape[0]
+        k = z3.Int("gi!k")
+        if a["__case__"] == "subscripts":
+            row = item.rowfn
+        else:
+            P = N.PRODR(g["srow"])
+            wrap = lambda v: z3.If(v < 0, v + P, v)
+            row = lambda k_: N.UNRAVELF(g["srow"], wrap(T.tz(item.fn(k_))))
+            ca = S.body_ghosts.get("callargs:extract")
+            if ca:
+                # the rows handed to extract are the unravelled indices (element-wise by tt_ind2sub's contract; as rows by extensionality)
+                rb = N.ensure_rows(S.ctx, ca[-1]["searchsubs"])
+                yield "lemma:looked-up-rows-are-the-unravelled-indices", T.ForAll(
+                    [k], z3.Implies(z3.And(0 <= k, T.tz(k < p)), z3.And(N.rdiff(rb(k), row(k)) == N.rdiff(rb(k), row(k)), rb(k) == row(k))), [rb(k)]), "lemma"
+        if isinstance(ret, Arr):
+            yield "one-value-per-key", S.And(ret.ndim == 2, S.eq(ret.shape[0], p), S.eq(ret.shape[1], 1))
+            yield "value-is-the-denoted-entry", T.ForAll([k], z3.Implies(z3.And(0 <= k, T.tz(k < p)), T.tz(T.as_real(ret.fn(k, 0))) == den(A, row(k))))
+        else:
+            yield "a-bare-number-only-for-a-single-key", S.eq(p, 1)
+            yield "value-is-the-denoted-entry", T.tz(T.as_real(ret)) == den(A, row(0))
+
+
+@register
+class sp_setitem(Contract):
+    qual = Q + "__setitem__"
+    props = ("C04",)
+    doc = (
+        "S[K] = v with K a two-dimensional array of subscripts: the assignment is carried out by exactly one call of "
+        "_set_subscripts(K, v) on S with the same key and value objects (delegation; the effect is that function's own "
+        "contract).  Other key forms: bounded stand-in."
+    )
+    inline = ("pyttb.pyttb_utils.get_index_variant",)
+    opaque_calls = (Q + "_set_subscripts", Q + "_set_subtensor")
+
+    def setup(self, S, case):
+        A = sym_sptensor(S, "A")
+        p = S.int("p", 1)
+        return dict(__self__=A, key=S.row_matrix("K", p, A.ghost["N"]), value=S.matrix("V", p, 1, "real"))
+
+    def ensures(self, S, a, ret):
+        calls = S.body_ghosts.get("opaquecall:_set_subscripts", [])
+        other = S.body_ghosts.get("opaquecall:_set_subtensor", [])
+        # structural facts about the executed path, recorded as (trivially decided) obligations
+        yield "exactly-one-delegation-to-_set_subscripts", z3.BoolVal(len(calls) == 1 and len(other) == 0)
+        if len(calls) == 1:
+            c = calls[0]
+            yield "same-receiver-key-and-value", z3.BoolVal(bool(c["self"] is a["__self__"] and len(c["pos"]) == 2 and c["pos"][0] is a["key"] and c["pos"][1] is a["value"] and not c["kw"]))
